@@ -28,7 +28,7 @@ _logger = logging.getLogger(__name__)
 
 
 class OscInterface(ABC):
-    _recv_functions = set()
+    _recv_functions = dict()  # Ordered set: registration order.
     _local_endpoints = dict()
 
     def __init__(self, port=None, port_range=1):
@@ -63,12 +63,12 @@ class OscInterface(ABC):
             addr: A NetAddr object with sender's address.
             port: Local port as int.
         '''
-        cls._recv_functions.add(func)
+        cls._recv_functions[func] = None
 
     @classmethod
     def remove_recv_func(cls, func):
         '''Unregister func callback.'''
-        cls._recv_functions.discard(func)
+        cls._recv_functions.pop(func, None)
 
     def _msg_dispatch(self, addr, time, *msg):
         '''
@@ -83,7 +83,7 @@ class OscInterface(ABC):
         addr._osc_interface = self
 
         def sched_func():
-            for func in type(self)._recv_functions.copy():
+            for func in list(type(self)._recv_functions):
                 func(list(msg), time, addr, self.port)
 
         clk.SystemClock.sched(0, sched_func)  # Updates logical time.
